@@ -91,6 +91,7 @@ inductive Err where
   | merge
   | notnew (p : Path)          -- MergeError raised by `_require_all_new`, naming the path
   | eval
+  | recursion                  -- unbounded recursion in the evaluator (RecursionError → EvalError)
   | unsafeE                    -- EvalError whose chain contains UnsafeError
   | required (ps : List Path)  -- ValueError of Config.check_missing
   | value                      -- plain ValueError (e.g. 'Not all stages are dictionaries')
